@@ -229,15 +229,15 @@ func (r *Report) Finish() int {
 	}
 	sort.Strings(rules)
 	cov := map[string]interface{}{
-		"obligations":    len(r.Obls),
-		"discharged":     discharged + len(knownHits),
-		"checker_cmd":    "cd /verif && ./check.sh " + r.Prop + " " + r.Tier,
-		"trusted_base":   append([]string{"go/packages + go/types + go/ssa (x/tools v0.29.0)", "the rule tables under /verif/internal (transcribed from the property statements)"}, r.Trusted...),
-		"explanation":    r.Explanation,
-		"not_decided":    r.NotDecided,
-		"samples":        samples,
-		"rule_instances": r.Counts,
-		"configurations": r.Configs,
+		"obligations":             len(r.Obls),
+		"discharged":              discharged + len(knownHits),
+		"checker_cmd":             "cd /verif && ./check.sh " + r.Prop + " " + r.Tier,
+		"trusted_base":            append([]string{"go/packages + go/types + go/ssa (x/tools v0.29.0)", "the rule tables under /verif/internal (transcribed from the property statements)"}, r.Trusted...),
+		"explanation":             r.Explanation,
+		"not_decided":             r.NotDecided,
+		"samples":                 samples,
+		"rule_instances":          r.Counts,
+		"configurations":          r.Configs,
 		"positive_controls_fired": r.Controls,
 		"known_findings_hit":      len(knownHits),
 		"evaluations":             len(r.Obls),
